@@ -367,7 +367,7 @@ func confirms(out string, assert string) bool {
 	case strings.HasPrefix(out, "panic:"):
 		return true
 	case strings.HasPrefix(out, "timeout"), strings.HasPrefix(out, "crash"):
-		return assert == "step-bound" || assert == "alloc-bound" || assert == "alloc-unbounded" || assert == "nopanic"
+		return assert == "step-bound" || assert == "alloc-bound" || assert == "alloc-unbounded" || assert == "nopanic" || assert == "noblock"
 	}
 	return false
 }
